@@ -42,6 +42,15 @@ func randomScript(r *rand.Rand, id int, big bool) *Script {
 		return sc
 	}
 	switch r.Intn(24) {
+	case 2, 3: // waits of tens of microseconds (below any timer resolution worth the name): still obeyed
+		sc.WaitUs = 10
+		sc.Workers, sc.MaxWorkers = r.Intn(3), []int{-1, 1, 2}[r.Intn(3)]
+		for i, n := 0, 2+r.Intn(6); i < n; i++ {
+			sc.Waits = append(sc.Waits, 1+r.Intn(4))
+		}
+		sc.Lat, sc.Cons = []int{0}, []int{0}
+		sc.StopCall = len(sc.Waits) + 1 + r.Intn(3)
+		return sc
 	case 0: // a wait of seconds with a Stop inside it: the sleep cannot be interrupted, and the hit in hand is not released early
 		w := 1000 + r.Intn(2000)
 		sc.Workers, sc.MaxWorkers = r.Intn(3), []int{-1, 1, 2}[r.Intn(3)]
